@@ -715,7 +715,7 @@ func (f *Frame) execReturn(cur *blockCur, x *ssa.Return) {
 				func() {
 					defer func() {
 						if r := recover(); r != nil {
-							if u, ok := r.(unsupportedErr); ok && strings.Contains(u.msg, "unknown identifier") {
+							if u, ok := r.(unsupportedErr); ok && (strings.Contains(u.msg, "unknown identifier") || strings.Contains(u.msg, "precedes this point")) {
 								skipped = true
 								return
 							}
@@ -724,8 +724,14 @@ func (f *Frame) execReturn(cur *blockCur, x *ssa.Return) {
 					}()
 					t = f.evalClauseAt(cl, cur.b, cur.st, vs)
 				}()
+				if !skipped {
+					if f.c.whereDefinedHit == nil {
+						f.c.whereDefinedHit = map[*Clause]int{}
+					}
+					f.c.whereDefinedHit[cl]++
+				}
 				if skipped {
-					f.c.note("clause %s does not apply at an early return (its locals are not defined yet)", clauseLabel(cl))
+					f.c.note("clause %s does not apply at an early return (its locals are not defined yet, or the call it speaks about has not happened)", clauseLabel(cl))
 					continue
 				}
 			} else {
